@@ -215,6 +215,7 @@ def do_check(mod, prop, tier, seed, repo, workdir, jobs):
             viol_count[k] = viol_count.get(k, 0) + v
         shard_walls.append(res["wall_s"])
 
+    required.update(getattr(mod, "post_merge_requirements", lambda: [])())
     for r in sorted(required):
         if counters.get(r, 0) == 0:
             inconclusive.append("deciding monitor %r observed no events" % r)
